@@ -33,7 +33,7 @@ theorem C03_taint_sound (env : Env) (m : Memory) (fuel : Nat) (ptrSlots patched 
 
 /-- **machine code = interpreter on every case the checks call in-claim.**  `C03_x86_calls` with its semantic
     independence hypothesis discharged by the taint run: for an accepted program without eBPF-to-eBPF calls and F7
-    instructions, covered opcodes, if the taint run of the interpreter model returns `r0` with `inClaim = true`, then the
+    instructions, if the taint run of the interpreter model returns `r0` with `inClaim = true`, then the
     emitter model's machine code, entered under the calling convention with any garbage in the registers the convention
     does not fix and any garbage left by helpers in the caller-saved registers, returns `r0`, leaves packet / metadata /
     registered ranges as the interpreter leaves them, makes the interpreter's helper calls in order with the stack
@@ -43,7 +43,7 @@ theorem C03_x86_inclaim (env : Env) (haddr : Nat → Option Nat) (um : Bool) (c 
     (hacc : Verifier.check env.prog = .ok)
     (hcomp : JitEmit.compileWithLayout env.prog haddr um false = .ok (c.code, locs, ex))
     (hext : ExtOk c env haddr)
-    (hcov : CoveredC env.prog) (hl : NoLocalCall env.prog) (h7 : NoF7 env.prog)
+    (hl : NoLocalCall env.prog) (h7 : NoF7 env.prog)
     (hbase : c.codeBase + c.code.size < 2 ^ 63)
     (hsent : c.retSentinel.toNat < c.codeBase ∨ c.codeBase + c.code.size ≤ c.retSentinel.toNat)
     (he : Entry c m σ) (hlog : σ.log = []) (halign : m.stack.base % 16 = 0)
@@ -57,7 +57,7 @@ theorem C03_x86_inclaim (env : Env) (haddr : Nat → Option Nat) (um : Bool) (c 
       σ'.log.map (·.2) = s'.log.map (·.2) ∧ σ'.misaligned = σ.misaligned := by
   have hindep := C03_taint_sound env m fuel ptrSlots patched t r0 sfin hl h7 hdisj hrun hin
   have hint : Interp.run env (Interp.init m) fuel = .done r0 sfin := taint_run_interp env ptrSlots patched fuel (Taint.init m) t r0 sfin hrun
-  obtain ⟨k, σ', h⟩ := C03_x86_calls env haddr um c locs ex m σ fuel r0 sfin hacc hcomp hext hcov hl h7 hbase hsent he hlog halign
+  obtain ⟨k, σ', h⟩ := C03_x86_calls env haddr um c locs ex m σ fuel r0 sfin hacc hcomp hext hl h7 hbase hsent he hlog halign
     hpkt hum hindep hint
   exact ⟨k, σ', sfin, hint, h⟩
 
